@@ -1361,9 +1361,9 @@ def grouping(node):
         if node.cls.name == "Parenthesis":
             return "(" + grouping(items[1]) + ")"
         if len(items) == 3 and isinstance(items[1], str):
-            return "[%s %s %s]" % (grouping(items[0]), items[1].lower(), grouping(items[2]))
+            return "[%s %s %s]" % (grouping(items[0]), items[1].lower().replace(" ", ""), grouping(items[2]))
         if len(items) == 2 and isinstance(items[0], str) and isinstance(items[1], (Tok, Inst)):
-            return "[%s %s]" % (items[0].lower(), grouping(items[1]))
+            return "[%s %s]" % (items[0].lower().replace(" ", ""), grouping(items[1]))
         if len(items) >= 1 and isinstance(items[0], str):
             return items[0]
         return str(node.fields.get("string"))
@@ -1404,7 +1404,17 @@ def expression_cases():
               ("x2d-1", "[x2d - 1]"), ("n1e+k", "[n1e + k]"), ("a*x2d-1+c", "[[[a * x2d] - 1] + c]"), ("y-u3d+1.0e-3", "[[y - u3d] + 1.0E-3]"),
               ("e1-d2", "[e1 - d2]"), ("a2e*b+c", "[[a2e * b] + c]"), ("a//b+c", "[a // [b + c]]"), ("a // b - c // d", "[[a // [b - c]] // d]"),
               ("x == a // b + c", "[x == [a // [b + c]]]")]
-    return [c for c in cases if c[1] is not None]
+    cases = [c for c in cases if c[1] is not None]
+    # the dotted operators written with blanks inside the token (`. not .`, `.and .`): insignificant in fixed source form and
+    # accepted by the operator patterns; the grouping is that of the compact spelling
+    spaced = []
+    for k, (text, want) in enumerate(cases):
+        if re.search(r"\.x\. (\w+ )?\.[a-z]+\.", text):
+            continue          # (the family of known F13: a defined operator with a dotted operator to its right; one id per compact spelling)
+        if re.search(r"\.[a-z]+\.", text):
+            form = (r". \1 .", r".\1 .", r". \1.")[k % 3]
+            spaced.append((re.sub(r"\.([a-z]+)\.", form, text), want))
+    return cases + spaced
 
 
 def expression_grouping_rule(m, rid):
